@@ -256,6 +256,7 @@ PROPS['C03'] = {
 PROPS['C11'] = {
     'level': 'exploration',
     'vx': [{'unit': 'builder'}],
+    'kx': ['k11_builder_queries_small'],
     'bx': ['c11'],
     'technique': 'Verus contracts on the four guard functions of the real MessageBuilder (add_attribute, add_raw_attribute, add_message_integrity, add_fingerprint) over an abstract type list, with the two iterator-adaptor query helpers and the two sealing workers under assumed contracts; bounded stand-in (exhaustive operation sequences over the sealing alphabet + random programs on the real MessageBuilder against the ordering rules of the statement) for everything assumed',
     'rule': 'see engines.bx[0].rule',
@@ -263,7 +264,7 @@ PROPS['C11'] = {
                '(unit builder) add_message_integrity: SHA-1 refused <==> MI, MI-SHA256 or FINGERPRINT present; SHA-256 refused <==> MI-SHA256 or FINGERPRINT present; refused => builder unchanged; accepted => one attribute of that type appended',
                '(unit builder) add_fingerprint: refused <==> FINGERPRINT present; refused => builder unchanged',
                'the documented panics of add_attribute/add_raw_attribute (integrity/fingerprint types passed directly) are preconditions; under them the panic!/unreachable arms are proved unreachable'],
-    'bounded': ['has_attribute / has_any_attribute (iterator adaptors any/find over SmallVec): assumed contracts in VX (contains / first element among the given types), exercised by BX on every builder state (C11:query-vs-serialisation)',
+    'bounded': ['has_attribute / has_any_attribute (iterator adaptors any/find over SmallVec): assumed contracts in VX (contains / first element among the given types), exercised by BX on every builder state (C11:query-vs-serialisation) and checked by Kani on builders of three symbolic types (k11_builder_queries_small, thorough tier, bounded)',
                 'add_message_integrity_unchecked / add_fingerprint_unchecked append exactly one attribute of the respective type: assumed in VX, BX compares the serialisation',
                 'whole-sequence behaviour: BX, exhaustive for sequences up to length 5 (quick) / 6 (thorough) over {typed, raw, SHA-1, SHA-256, fingerprint}, random programs up to length 7 with into_owned/clone/duplicates'],
     'trusted': _BX_TRUST + ['smallvec::SmallVec stand-in (push appends; clone preserves the sequence)', 'mirror of trait AttributeWrite without its supertrait (get_type only)'],
